@@ -39,6 +39,9 @@ for f in sorted(glob.glob(os.path.join(ROOT, "seeded", "*", "meta.json"))):
     d = json.load(open(f))
     sid = os.path.basename(os.path.dirname(f))
     out.append("| %s | %s | %s | %s | %s | %s | %s |" % (sid, d["property"], d["breaks"].replace("|", "/"), d["needs"].replace("|", "/"), d["caught_by"].replace("|", "/"), "yes" if d.get("initially_missed") else "no", (d.get("strengthening") or "").replace("|", "/")))
+metas = [json.load(open(f)) for f in sorted(glob.glob(os.path.join(ROOT, "seeded", "*", "meta.json")))]
+nm = sum(1 for d in metas if d.get("initially_missed"))
+out.append("Totals: %d confirmed seeded changes over %d properties; %d caught by the checks as first built, %d missed at first and caught after the strengthening named in their row; all are caught by the quick tier now.\n" % (len(metas), len({d["property"] for d in metas}), len(metas) - nm, nm))
 out.append("")
 text = "\n".join(out)
 p = os.path.join(ROOT, "DESIGN.md")
